@@ -804,6 +804,13 @@ def c08(tier):
             for nth in (0, 2):
                 for e in (5, 28, 18) if op == "rename" else (5, 28):
                     multi.append([("edit", "op=%s,nth=%d:errno=%d" % (op, nth, e)), ("check", "")])
+        # persistent failures with errnos a file system uses for "not supported here" (what an fsync-style call may meet)
+        for e in (22, 38, 95):
+            multi.append([("edit", "op=write,path=.tmp,nth=0:errno=%d" % e), ("check", "")])
+            multi.append([("edit", "op=fsync,nth=0:errno=%d" % e), ("check", "")])
+        # a run in which every file fails, then (more than a second later) an ordinary run: it must do the work
+        multi.append([("edit", "op=rename,nth=0:errno=5"), ("sleep", 1.3), ("edit", ""), ("check", "")])
+        multi.append([("edit", "op=open,path=.tmp,nth=0:errno=28"), ("sleep", 1.3), ("edit", ""), ("check", "")])
         multi.append([("edit", "op=rename,nth=1:errno=18;op=write,path=.tmp,nth=3:errno=5"), ("check", "")])
         multi.append([("edit", "op=open,path=.tmp,nth=1:errno=13;op=rename,nth=1:errno=5"), ("check", "")])
         rl.planned_runs(binary, sc, multi, batch, v)
